@@ -3,6 +3,14 @@ package main
 // props is the per-property run configuration. Case counts bound the work
 // (never wall clock); TimeoutS is only a safety net that yields exit 2.
 var props = map[string]propCfg{
+	"C19": {
+		Test:     "TestC19",
+		Quick:    tierCfg{Shards: 8, Checks: 2500, TimeoutS: 900},
+		Thorough: tierCfg{Shards: 16, Checks: 120000, TimeoutS: 7200},
+		Rule:     "each case = one well-formed number literal (shortest repr of random float64/float32 bits, the same with up to 900 extra digits, exact decimal midpoints between adjacent doubles/float32s and their neighbours, integer width boundaries 2^k±2, subnormals, overflow/underflow, notation thresholds, special list) decoded by jitdec and optdec under ConfigStd/ConfigDefault/UseNumber/UseInt64 into ~45 destinations (all int/uint widths, float32/64, json.Number, interface{}, slices, arrays, map values, integer map keys, ,string fields, named kinds, a struct of all widths), by ast.Node accessors, and one float64/float32/int64/uint64 value set printed through ~25 value shapes; ~600 oracle evaluations per case (evaluations counts them). Non-trivial: literal has more than 15 significant digits, or an exponent, or lies where float32 double rounding matters. Distinct = distinct canonical case encodings.",
+		Assume:   []string{"encoding/json (go1.23.5) and strconv are the reference", "optdec selected in-process through verifhook.SetDecoder (same assignment the SONIC_USE_OPTDEC init makes)"},
+		EssentialClasses: []string{"digits>19", "subnormal", "negative-zero", "f64-overflow", "f32-double-rounding-candidate", "int-literal-out-of-int64"},
+	},
 	"C20": {
 		Test:     "TestC20",
 		Quick:    tierCfg{Shards: 8, Checks: 40000, TimeoutS: 600},
